@@ -325,7 +325,19 @@ def k_args(run, case):
                         lambda: plot.error_array(fig.gca(), err, x_array=x, statistics={"mean": 1.0, "std": 0.5},
                                                  cumulative=bool(rng.random() < .3)))
             elif fname == "plot.trajectories":
-                guarded(run, case, fname, {"a": A, "b": B}, lambda: plot.trajectories(fig, {"a": A, "b": B}, mode))
+                # the container is an argument too: a dict (names -> trajectories), a list or a
+                # tuple, possibly holding a trajectory without poses (cropped to a window without data)
+                import copy as _copy
+                members = [("a", A), ("b", B)]
+                if rng.random() < .5 or case.get("empty_member"):
+                    E = _copy.deepcopy(A)
+                    E.reduce_to_time_range(float(arrA["t"][-1]) + 10.0, float(arrA["t"][-1]) + 20.0)
+                    members.insert(int(rng.integers(3)), ("cropped", E))
+                kind = int(case["container"]) if "container" in case else int(rng.integers(3))
+                cont = dict(members) if kind == 0 else [m for _, m in members] if kind == 1 else tuple(m for _, m in members)
+                named = dict(members)
+                named["container"] = cont
+                guarded(run, case, fname, named, lambda: plot.trajectories(fig, cont, mode))
         finally:
             plt.close("all")
     else:
@@ -544,6 +556,8 @@ def main(run):
         k_args(run, run.case("args", i, f=FUNCS[i % len(FUNCS)]))
     for i in run.mine({"quick": 24, "thorough": 400}[run.tier]):
         k_args(run, run.case("args", 10**6 + i, f=["APE.process_data", "RPE.process_data"][i % 2], nonfinite=True))
+    for i in run.mine({"quick": 12, "thorough": 120}[run.tier]):
+        k_args(run, run.case("args", 2 * 10**6 + i, f="plot.trajectories", empty_member=True, container=i % 3))
     combos = [(d, m, dr, st, mat) for d in DERIVE for m in MUTATE
               for dr in ("mutate derived, inspect source", "mutate source, inspect derived")
               for st in ("se3", "xyzq") for mat in (False, True)]
